@@ -1,4 +1,3 @@
 package main
 
-func cmdConfChange(args []string) { panic("not built yet") }
-func cmdLogStore(args []string)   { panic("not built yet") }
+func cmdLogStore(args []string) { panic("not built yet") }
